@@ -129,7 +129,9 @@ def finish(ctx, explanation, technique):
     """Check floors, split findings into known/new, write evidence and
     replay files, print the protocol lines, return the exit code."""
     for rid, r in ctx.rules.items():
-        if r["instances"] < r["floor"]:
+        # the floor guards against vacuous passes; a rule that already found a
+        # violation is not vacuous
+        if r["instances"] < r["floor"] and not r["failed"] and not ctx.findings:
             raise AnalysisError(
                 f"rule {rid} matched {r['instances']} instance(s), fewer than "
                 f"the {r['floor']} confirmed on the pinned tree: the anchor "
